@@ -151,6 +151,26 @@ func runC05(c *Ctx) {
 
 	ruleLimiterBypass(c)
 
+	R.Rule("R-bdat-limiter-layer", "E4 layering", "lifting the line limit for a chunk is effective for every payload octet: the limit must not be enforced below the buffered reader the chunk is read from (read-ahead puts payload octets through the limiter before LineLimit=0 executes)", 1)
+	if g := c.A.Func("(*Conn).init"); g != nil {
+		below := false
+		allInstrs(g, func(in ssa.Instruction) {
+			if fld, _, v := storedField(in); fld != nil && fld.Name() == "Reader" {
+				if d := describe(v); d == "Conn.lineLimitReader" || strings.HasPrefix(d, "alloc:complit") {
+					below = true
+				}
+			}
+		})
+		chunkFromBuffer := false
+		for _, cp := range s.Find(f, "copy-to:Conn.bdatPipe") {
+			if bi.isChunk(callCommon(cp).Args[1]) {
+				chunkFromBuffer = true
+			}
+		}
+		R.Ob("(*Conn).init/line limit is not enforced below the chunk's buffered reader", c.P.Pos(g.Pos()), !(below && chunkFromBuffer),
+			"textproto's bufio.Reader reads through lineLimitReader and the chunk is read from that bufio.Reader: payload octets that arrive in the same network read as the BDAT command line are counted as a line before LineLimit=0 takes effect")
+	}
+
 	R.Rule("R-bdat-one-call", "E3", "the pipe and the delivery goroutine are created only when no transfer is open; the pipe field is only cleared after the pipe was closed", 3)
 	for _, site := range c.Sites(lPipe) {
 		c.obUnreach("io.Pipe", site, aPipeOpen)
